@@ -679,6 +679,18 @@ impl Session {
 
         debug!("\n>>RCV (BTP IO) {} [{}]\n      HANDSHAKE RESP {:?}\nSelected version: {}, MTU: {}, window size: {}", address, hdr, resp, resp.version, resp.mtu, resp.window_size);
 
+        if resp.mtu < MIN_MTU - GATT_HEADER_SIZE as u16
+            || resp.mtu > MAX_MTU - GATT_HEADER_SIZE as u16
+            || resp.window_size == 0
+            || resp.window_size > Self::initial_window_size(resp.mtu)
+        {
+            warn!(
+                "RX handshake integrity failure: MTU {} / window size {} out of range",
+                resp.mtu, resp.window_size
+            );
+            return Err(ErrorCode::InvalidData.into());
+        }
+
         self.setup(address, resp.version, resp.mtu, resp.window_size);
 
         Ok(())
